@@ -17,7 +17,24 @@ and the results are compared pairwise (==, else mutual can_assign + identical st
 Part 2 (def headers).  Every signature of vp.sigs (all kinds / default patterns) decorated with annotations and
 defaults from a small pool is rendered once NESTED in a function (signature from the def node:
 compute_parameters) and once at module level of another module (signature from the function object:
-arg_spec); parameters are compared attribute by attribute and 6 calls are diagnosed in both placements.
+arg_spec); parameters are compared attribute by attribute and 6 calls are diagnosed in both placements.  Headers include
+old-style ParamSpec (*args: PS.args, **kwargs: PS.kwargs) and PEP 695 generic functions (def f[U](...)).
+
+Part 2b (methods).  The def statement sits in a class body: plain / static / class methods of top-level classes, classes
+nested in classes (one and two levels, with and without bases, generic) and function-local classes, the first parameter
+unannotated (self / cls / an unconventional name) or annotated (the class's own quoted path, a TypeVar, another class).
+Def route = the values of the parameter names read inside the method body of the checked module (and the signature
+left on the def node where the visitor leaves one); runtime route = Checker.get_signature of what attribute access on
+the class and on an instance yields, in the checked module and in a never-checked twin.  The implicit first parameter
+must be the SAME type on both routes.  Calls (bound, through the class, unbound with an own instance / an int / an
+instance of another class as first argument) are diagnosed in the defining and in an importing module, and the first
+argument of an unbound call is judged against the type the def route gives the first parameter.
+
+Part 3 (whose name is it).  Two modules define different classes under the same names (A, B, Warning, TimeoutError);
+both annotate parameters with the same expression holding a quoted name inside every constructor.  typing shares one
+alias object / ForwardRef per spelling between them.  With and without a prior typing.get_type_hints() on the OTHER
+module's functions, all routes of the module under test (A, Bv, Bs, Cr = the function's own __annotations__ object,
+Cs, Cf) must agree with each other and with R = the same expression written without quotes in that module.
 """
 from __future__ import annotations
 
@@ -42,11 +59,23 @@ RULE = (
     "annotation case = (expression E, context); E built from 43 atoms (classes incl. two whose names shadow builtins, None/Any/Never, TypeVars plain/bound/"
     "constrained, NewType, TypedDict class+functional, Protocol, enum/int/str/bytes/bool/None Literals, forward-reference "
     "strings) and ~75 constructors (Optional/Union/|, typing.X[...] / builtin / collections.abc / attribute spellings, all "
-    "tuple forms incl. tuple[()], *tuple[..] and Unpack, type[], Callable list/ellipsis/empty, Annotated, ClassVar/Final in "
+    "tuple forms incl. tuple[()], *tuple[..] and Unpack, type[], Callable list/ellipsis/empty, Annotated with literal, call "
+    "(Meta(1)) and list/tuple-display metadata, ClassVar/Final in "
     "class bodies, Required/NotRequired/ReadOnly TypedDict fields): depth 1 exhaustive over atoms, depth 2 every ordered "
     "pair of constructors, depth 3 seeded random; header case = (signature shape from vp.sigs n<=4/5, annotation+default "
     "assignment, 6 calls). Non-trivial = depth >= 2 or a special form (not a bare class) resp. a header with >= 1 parameter; "
-    "distinct by normalised text."
+    "distinct by normalised text. Two extra header variants: every shape with *args and **kwargs (no keyword-only "
+    "parameter) once as (*args: PS.args, **kwargs: PS.kwargs) with an old-style ParamSpec, every (quick: every third) shape "
+    "with a named parameter once as a PEP 695 generic function def f[U](..) / [U: A] / [U: (int, str)] whose annotations "
+    "(U, U | None, Optional[U], list[U]) use its own type parameter. Method case = (class placement: top-level / with base / nested 1-2 levels / nested with "
+    "bases / generic top-level+nested / function-local / function-local nested) x (plain, static, class method) x (first "
+    "parameter unannotated self|cls, unconventional name, own class as quoted path, TypeVar, unrelated class, Type[own], "
+    "type[T]) x 4/12 headers for the remaining parameters (none, unannotated, int, drawn from the pools; shapes n<=3) "
+    "with 3 argument lists, each rendered as bound / through-class / unbound calls (first argument own instance, 42, A()). "
+    "Twin-module case = (expression with a quoted name: every forward-reference atom in every slot of every constructor, "
+    "plus every constructor around a sampled container of a quoted name) x history (none, typing.get_type_hints on the "
+    "other module's function, the same with include_extras), in batches of 24 so that typing's caches make both modules "
+    "share their alias/ForwardRef objects (recorded per case in twin_typing_object_state)."
 )
 ASSUMPTIONS = [
     "agreement tolerance is the statement's 'same type': == or (mutual can_assign and identical str()); union member order, "
@@ -58,20 +87,36 @@ ASSUMPTIONS = [
     "diagnostics of a call are compared as sets of (code, message with the 'In call to X: ' prefix removed)",
     "the result type of a call is compared only when the header declares a return type (a nested def without one gets "
     "its return type inferred from the body, which is inference, not a declaration)",
+    "the type of the implicit first parameter of a method (self / cls) is derived from the enclosing class by rule on both "
+    "routes, hence part of the declaration: it must agree like an annotation, not merely be compatible",
+    "reaching a class method through its class hides cls, binding an instance hides self and substitutes type variables: "
+    "the bound views are compared on names and kinds, annotations only between unbound views",
+    "the first argument of an unbound call is judged only when the call binds (no incompatible_call)",
+    "an annotation written without quotes is the reference for the same annotation with quoted names in the same module",
+    "the type parameter of a PEP 695 function is one TypeVar object per function object (the def route has none and makes "
+    "its own): such TypeVars are the same when their names are; bound and constraints are compared as part of the value",
 ]
 LEVEL_TEXT = (
     "exploration: exhaustive at depth 1 and over constructor pairs at depth 2, sampled at depth 3; "
     "agreement of the real evaluators on every generated declaration, nothing is proved beyond the explored cases"
 )
 FLOORS = {
-    "quick": {"distinct_nontrivial": 6000, "ann_cases": 4500, "ann_all_routes_agree": 3500, "route_pairs_compared": 70000,
+    "quick": {"distinct_nontrivial": 8000, "ann_cases": 4500, "ann_all_routes_agree": 3500, "route_pairs_compared": 70000,
               "classbody_cases": 200, "td_cases": 600, "td_field_type_compared": 500, "headers": 800,
               "signatures_agree": 600, "sig_params_compared": 2800, "calls_compared": 5000,
-              "calls_both_diagnosed": 2500, "calls_both_clean": 2000},
+              "calls_both_diagnosed": 2500, "calls_both_clean": 2000,
+              "method_cases": 150, "method_first_param_compared": 85, "method_params_compared": 330,
+              "method_calls_compared": 900, "method_unbound_first_arg_judged": 280,
+              "method_unbound_first_arg_rejected_and_reported": 110, "twin_cases": 400,
+              "twin_all_routes_agree_with_unquoted": 400, "twin_cases_shared_object_evaluated_elsewhere": 180},
     "thorough": {"distinct_nontrivial": 45000, "ann_cases": 35000, "ann_all_routes_agree": 25000,
                  "route_pairs_compared": 450000, "classbody_cases": 600, "td_cases": 7000, "td_field_type_compared": 5000,
                  "headers": 5000, "signatures_agree": 4000, "sig_params_compared": 22000, "calls_compared": 30000,
-                 "calls_both_diagnosed": 20000, "calls_both_clean": 8000},
+                 "calls_both_diagnosed": 20000, "calls_both_clean": 8000,
+                 "method_cases": 460, "method_first_param_compared": 250, "method_params_compared": 1200,
+                 "method_calls_compared": 2600, "method_unbound_first_arg_judged": 850,
+                 "method_unbound_first_arg_rejected_and_reported": 350, "twin_cases": 780,
+                 "twin_all_routes_agree_with_unquoted": 780, "twin_cases_shared_object_evaluated_elsewhere": 400},
 }
 NSHARDS = 16
 WATCHDOG_S = {"quick": 900, "thorough": 7200}
@@ -119,6 +164,17 @@ class Warning:
 class TimeoutError(Exception):
     pass
 ANYV: Any = None
+PS = ParamSpec("PS")
+class Meta:
+    """Annotated metadata that is an object, not a literal (compares by content: each route builds its own)."""
+    def __init__(self, n=0):
+        self.n = n
+    def __eq__(self, other):
+        return isinstance(other, Meta) and other.n == self.n
+    def __hash__(self):
+        return hash(("Meta", self.n))
+    def __repr__(self):
+        return f"Meta({self.n})"
 '''
 
 _STATE: dict = {}
@@ -249,6 +305,7 @@ CONSTRUCTORS = [
     ("typing.Callable.list1", 2, "typing.Callable[[{0}], {1}]"),
     ("Annotated", 1, "Annotated[{0}, 'm']"), ("Annotated.2", 1, "Annotated[{0}, 1, 2]"),
     ("typing.Annotated", 1, "typing.Annotated[{0}, 'm']"),
+    ("Annotated.call-metadata", 1, "Annotated[{0}, Meta(1)]"), ("Annotated.display-metadata", 1, "Annotated[{0}, [1, (2, 'a')]]"),
     ("ClassVar", 1, "ClassVar[{0}]"), ("Final", 1, "Final[{0}]"),
     ("typing.ClassVar", 1, "typing.ClassVar[{0}]"), ("typing.Final", 1, "typing.Final[{0}]"),
 ]
@@ -388,6 +445,7 @@ def same(x, y, depth: int = 0) -> bool:
     """Structural equality of two values up to representation: union members as a set, a string reference to a class
     equals the class, cached type objects ignored."""
     import dataclasses
+    import typing
 
     from pyanalyze.value import MultiValuedValue, TypedValue
 
@@ -398,6 +456,10 @@ def same(x, y, depth: int = 0) -> bool:
             return True
     except Exception:  # noqa: BLE001
         pass
+    if isinstance(x, typing.TypeVar) and isinstance(y, typing.TypeVar):
+        # the type parameter of a PEP 695 function exists once per function object; the def route has no function
+        # object and makes its own TypeVar of that name: two declarations of  def f[U]  never share the object
+        return x.__name__ == y.__name__ and (getattr(x, "__infer_variance__", False) or getattr(y, "__infer_variance__", False))
     x, y = norm(x, depth), norm(y, depth)
     if isinstance(x, MultiValuedValue) and isinstance(y, MultiValuedValue):
         return (all(any(same(a, b, depth + 1) for b in y.vals) for a in x.vals)
@@ -863,6 +925,8 @@ def key_form(form: str) -> str:
         return "bitor"
     if form.startswith("Union"):
         return "Union"
+    if form in ("Annotated.call-metadata", "Annotated.display-metadata"):
+        return "Annotated.non-literal-metadata"
     if form.startswith("Annotated"):
         return "Annotated"
     if form in ("Callable.list1", "Callable.empty"):
@@ -1033,9 +1097,19 @@ DEFAULTS = ["0", "'s'", "None", "...", "()", "-1", "1.5", "True"]
 RETS = [None, "int", '"A"', "None", "T", "Optional[int]", "list[T]"]
 
 
+# PEP 695 headers: the function declares its own type parameter U; old-style ParamSpec: *args: PS.args, **kwargs: PS.kwargs
+TPARAMS = ["U", "U: A", "U: (int, str)"]
+ANN_695 = ["U", "U | None", "Optional[U]", "list[U]", "int"]
+RETS_695 = [None, "U", "list[U]", "int"]
+
+
 def ann_label(a: Optional[str]) -> str:
     if a is None:
         return "unannotated"
+    if re.search(r"\bU\b", a):
+        return "pep695-bare-type-parameter" if a == "U" else "pep695-bitor" if "|" in a else "pep695-subscripted"
+    if a.startswith("PS."):
+        return "paramspec-args-kwargs"
     if a.startswith("*"):
         return "star-unpack"
     if a.startswith("Unpack["):
@@ -1055,11 +1129,13 @@ class Header:
     ret: Optional[str]
     is_async: bool
     calls: tuple     # of Call
+    tparams: str = ""  # PEP 695 type parameter list, e.g. "U: A"
 
     def render_def(self, fname: str) -> str:
         params = self.sig.render_params(annotations=dict(self.anns), defaults=dict(self.defaults))
         ret = f" -> {self.ret}" if self.ret is not None else ""
-        return f"{'async ' if self.is_async else ''}def {fname}({params}){ret}: ..."
+        tp = f"[{self.tparams}]" if self.tparams else ""
+        return f"{'async ' if self.is_async else ''}def {fname}{tp}({params}){ret}: ..."
 
     def to_json(self):
         return {
@@ -1067,6 +1143,7 @@ class Header:
             "defaults": [list(x) for x in self.defaults], "ret": self.ret, "async": self.is_async,
             "calls": [{"npos": c.npos, "kws": list(c.kws), "star": c.star, "dstar": None if c.dstar is None else list(c.dstar)}
                       for c in self.calls],
+            **({"tparams": self.tparams} if self.tparams else {}),
         }
 
     @staticmethod
@@ -1075,6 +1152,7 @@ class Header:
             Sig(tuple(Param(n, k, d) for n, k, d in j["sig"])), tuple(tuple(x) for x in j["anns"]),
             tuple(tuple(x) for x in j["defaults"]), j["ret"], j["async"],
             tuple(Call(c["npos"], tuple(c["kws"]), c["star"], None if c["dstar"] is None else tuple(c["dstar"])) for c in j["calls"]),
+            j.get("tparams", ""),
         )
 
 
@@ -1099,10 +1177,34 @@ def make_calls(sig: Sig, rng, n: int = 6) -> tuple:
 def gen_headers(ctx):
     """Per signature shape: v0 unannotated, v1 all `int`/default 0, v2 = v0 with the first named parameter spelled
     `__name` (the PEP 484 positional-only spelling; never combined with annotations so that it is one mechanism),
-    v3.. annotations/defaults/return drawn from the pools by the seeded rng (same stream in every shard)."""
+    v3.. annotations/defaults/return drawn from the pools by the seeded rng (same stream in every shard).
+    Two more variants from a stream of their own: every shape with *args and **kwargs once as
+    (*args: PS.args, **kwargs: PS.kwargs) (old-style ParamSpec), every (quick: every third) shape with a named parameter
+    once as a PEP 695 generic function  def f[U](..)  whose annotations use its own type parameter."""
     rng = gen_rng(ctx, "headers")
+    rng2 = gen_rng(ctx, "headers-extra")
     variants = ctx.pick(4, 10)
-    for sig0 in enumerate_sigs(ctx.pick(4, 5)):
+    for n_shape, sig0 in enumerate(enumerate_sigs(ctx.pick(4, 5))):
+        kinds = [p.kind for p in sig0.params]
+        if VA in kinds and VK in kinds and KO not in kinds:  # PEP 612: nothing between *args: P.args and **kwargs: P.kwargs
+            anns = []
+            for p in sig0.params:
+                a = "PS.args" if p.kind == VA else "PS.kwargs" if p.kind == VK else rng2.choice([None, "int", "str"])
+                if a is not None:
+                    anns.append((p.name, a))
+            defaults = tuple((p.name, "0") for p in sig0.params if p.default)
+            yield Header(sig0, tuple(anns), defaults, rng2.choice([None, "int"]), False, make_calls(sig0, rng2))
+        if any(k in (PO, PK, KO) for k in kinds) and (not ctx.quick or n_shape % 3 == 0):
+            anns, used = [], False
+            for p in sig0.params:
+                a = rng2.choice(ANN_695) if p.kind in (PO, PK, KO) else rng2.choice([None, "U", "int"])
+                if p.kind in (PO, PK, KO) and not used:
+                    a = rng2.choice(ANN_695[:4])  # at least one parameter uses the type parameter
+                    used = True
+                if a is not None:
+                    anns.append((p.name, a))
+            defaults = tuple((p.name, "None") for p in sig0.params if p.default)
+            yield Header(sig0, tuple(anns), defaults, rng2.choice(RETS_695), False, make_calls(sig0, rng2), rng2.choice(TPARAMS))
         for v in range(variants):
             sig = sig0
             if v == 2:
@@ -1269,13 +1371,16 @@ def compare_signatures(h: Header, static, runtime) -> list:
         else:
             ok = agree(a.annotation, b.annotation)
         if not ok:
-            out.append((f"sig|{dk}|annotation|{ann_label(declared)}",
+            lab = ann_label(declared)
+            # one evaluator handles a function's own type parameter wherever it is written: no kind in the key
+            out.append((f"sig|annotation|{lab}" if lab.startswith("pep695") else f"sig|{dk}|annotation|{lab}",
                         f"parameter {a.name}: {declared!r} is {show(a.annotation)} from the def node, {show(b.annotation)} from the function object"))
     if ssig.has_return_annotation != runtime.has_return_annotation:
         out.append((f"sig|return|has-annotation|static={ssig.has_return_annotation}|runtime={runtime.has_return_annotation}",
                     f"return annotation {h.ret!r}: present={ssig.has_return_annotation} vs {runtime.has_return_annotation}"))
     elif h.ret is not None and not agree(ssig.return_value, runtime.return_value):
-        out.append((f"sig|return|annotation|{ann_label(h.ret)}{'|async' if h.is_async else ''}",
+        out.append((f"sig|annotation|{ann_label(h.ret)}" if ann_label(h.ret).startswith("pep695") else
+                    f"sig|return|annotation|{ann_label(h.ret)}{'|async' if h.is_async else ''}",
                     f"return annotation {h.ret!r}: {show(ssig.return_value)} from the def node, {show(runtime.return_value)} from the function object"))
     elif h.ret is None and not mutually_assignable(ssig.return_value, runtime.return_value):
         out.append((f"sig|return|unannotated{'|async' if h.is_async else ''}",
@@ -1299,6 +1404,9 @@ def reduce_header(h: Header, key: str) -> Header:
         budget -= 1
         trial_params = params[:i] + params[i + 1:]
         names = {p.name for p in trial_params}
+        if dict(best.anns).get(params[i].name, "").startswith("PS."):
+            i += 1  # P.args and P.kwargs are only legal together
+            continue
         # dropping a non-default positional before defaulted ones is fine; dropping may create default-before-nondefault
         pos = [p for p in trial_params if p.kind in (PO, PK)]
         legal = all(not (pos[k].default and not pos[k + 1].default) for k in range(len(pos) - 1))
@@ -1306,7 +1414,7 @@ def reduce_header(h: Header, key: str) -> Header:
             i += 1
             continue
         trial = Header(Sig(tuple(trial_params)), tuple(x for x in best.anns if x[0] in names),
-                       tuple(x for x in best.defaults if x[0] in names), best.ret, best.is_async, ())
+                       tuple(x for x in best.defaults if x[0] in names), best.ret, best.is_async, (), best.tparams)
         try:
             r = eval_headers([trial])[0]
             keys = [k for k, _ in compare_signatures(trial, r["static"], r["runtime"])]
@@ -1357,7 +1465,9 @@ def judge_header(ctx, h: Header, r: dict) -> None:
         if key in seen:
             continue
         seen.add(key)
-        small = reduce_header(h, key) if len(h.sig.params) > 1 else h
+        # reduction re-checks up to a dozen modules: done for the first occurrences of a key in a shard only (the
+        # smallest witnesses are the ones kept)
+        small = reduce_header(h, key) if len(h.sig.params) > 1 and ctx.violation_counts.get(key, 0) < 3 else h
         hh = small if small is not h else h
         if hh is not h:
             try:
@@ -1366,7 +1476,7 @@ def judge_header(ctx, h: Header, r: dict) -> None:
             except Exception:  # noqa: BLE001
                 pass
         ctx.violation(key, f"{hh.render_def('f')}: {what}" if hh is h else f"{hh.render_def('f')} (reduced from {text}): {what}",
-                      {"kind": "header", "h": Header(hh.sig, hh.anns, hh.defaults, hh.ret, hh.is_async, ()).to_json()})
+                      {"kind": "header", "h": Header(hh.sig, hh.anns, hh.defaults, hh.ret, hh.is_async, (), hh.tparams).to_json()})
     if not diffs:
         ctx.count("signatures_agree")
     for c, (ns_, us_, rn, ru) in zip(h.calls, r["calls"]):
@@ -1380,14 +1490,714 @@ def judge_header(ctx, h: Header, r: dict) -> None:
                 ctx.count("call_differences_explained_by_signature_difference")
                 continue
             key = f"call|nested={diag_class(ns_ - us_)}|imported={diag_class(us_ - ns_)}"
+            if h.tparams and any(code == "undefined_name" and re.fullmatch(r"Undefined name: f\d+", desc) for code, desc in ns_):
+                # whatever the importing module says about the arguments: the generic function's own name is unknown
+                key = "call|nested=undefined_name:the-pep695-function-itself"
             ctx.violation(key, f"{text}; call {c.render('f')}: nested placement reports {sorted(ns_)}, imported placement reports {sorted(us_)}",
-                          {"kind": "header", "h": Header(h.sig, h.anns, h.defaults, h.ret, h.is_async, (c,)).to_json()})
+                          {"kind": "header", "h": Header(h.sig, h.anns, h.defaults, h.ret, h.is_async, (c,), h.tparams).to_json()})
         elif not ns_ and rn is not None and ru is not None and h.ret is not None:
             ctx.count("call_results_compared")
             if not agree(rn, ru) and not diffs:
                 key = f"call|result-type|{ann_label(h.ret)}{'|async' if h.is_async else ''}"
                 ctx.violation(key, f"{text}; call {c.render('f')}: result {show(rn)} when nested, {show(ru)} when imported",
-                              {"kind": "header", "h": Header(h.sig, h.anns, h.defaults, h.ret, h.is_async, (c,)).to_json()})
+                              {"kind": "header", "h": Header(h.sig, h.anns, h.defaults, h.ret, h.is_async, (c,), h.tparams).to_json()})
+
+
+# ---------------------------------------------------------------------------
+# part 2b: methods (the def statement sits in a class body)
+
+# placement -> (opening lines, class path or None for a function-local class, indent depth of the class body,
+#               class is generic, line closing a function-local placement)
+PLACEMENTS = {
+    "top": (["class K{i}:"], "K{i}", 1, False, None),
+    "top-base": (["class K{i}(A):"], "K{i}", 1, False, None),
+    "nested": (["class O{i}:", "    class K:"], "O{i}.K", 2, False, None),
+    "nested-base": (["class O{i}(A):", "    class K(B):"], "O{i}.K", 2, False, None),
+    "nested2": (["class O{i}:", "    class M:", "        class K:"], "O{i}.M.K", 3, False, None),
+    "generic-top": (["class K{i}(Generic[T]):"], "K{i}", 1, True, None),
+    "generic-nested": (["class O{i}:", "    class K(Generic[T]):"], "O{i}.K", 2, True, None),
+    "local": (["def mk{i}():", "    class K:"], None, 2, False, "    return K"),
+    "local-nested": (["def mk{i}():", "    class O:", "        class K:"], None, 3, False, "    return O.K"),
+}
+# method kind -> [(label, name of the first parameter, its annotation template)]
+FIRSTS = {
+    "plain": [("unannotated", "self", None), ("unannotated-odd-name", "this", None), ("own-quoted", "self", '"{path}"'),
+              ("typevar", "self", "T"), ("other-class", "self", "A")],
+    "class": [("unannotated", "cls", None), ("type-own-quoted", "cls", 'Type["{path}"]'), ("type-typevar", "cls", "type[T]")],
+    "static": [("no-implicit-first", None, None)],
+}
+# *args / **kwargs annotations of methods: the element type only (the Unpack forms, which turn one declared parameter
+# into several, are exercised on plain functions)
+M_ANN_VA = [None, "int", '"A"', "T"]
+M_ANN_VK = [None, "int", '"A"']
+# first argument of an unbound call  Cls.m(<first>, ...)
+UNBOUND_FIRST = [("own-instance", "{path}()"), ("int", "42"), ("other-instance", "A()")]
+
+
+def placement_class(placement: str) -> str:
+    """Placement for the mechanism key: how the class is reached, not how deep."""
+    generic = "generic-" if PLACEMENTS[placement][3] else ""
+    if placement.startswith("local"):
+        return generic + "function-local"
+    if "nested" in placement:
+        return generic + "nested"
+    return generic + "top-level"
+
+
+@dataclass(frozen=True)
+class MethodCase:
+    placement: str
+    kind: str     # "plain" | "static" | "class"
+    first: str    # label in FIRSTS[kind]
+    h: Header     # the remaining parameters, the return annotation and the argument lists of the calls
+
+    def first_spec(self) -> tuple:
+        return next(f for f in FIRSTS[self.kind] if f[0] == self.first)
+
+    def path(self, i: int) -> Optional[str]:
+        p = PLACEMENTS[self.placement][1]
+        return None if p is None else p.format(i=i)
+
+    def names(self) -> list:
+        fname = self.first_spec()[1]
+        return ([fname] if fname else []) + [p.name for p in self.h.sig.params]
+
+    def first_annotation(self, i: int) -> Optional[str]:
+        tmpl = self.first_spec()[2]
+        return None if tmpl is None else tmpl.format(path=self.path(i) or "K")
+
+    def declared_kinds(self) -> dict:
+        """name -> inspect-style kind name, as written in the def statement."""
+        m = {PO: "POSITIONAL_ONLY", PK: "POSITIONAL_OR_KEYWORD", VA: "VAR_POSITIONAL", KO: "KEYWORD_ONLY", VK: "VAR_KEYWORD"}
+        out = {p.name: m[p.kind] for p in self.h.sig.params}
+        fname = self.first_spec()[1]
+        if fname:
+            out[fname] = "POSITIONAL_ONLY" if any(p.kind == PO for p in self.h.sig.params) else "POSITIONAL_OR_KEYWORD"
+        return out
+
+    def def_lines(self, i: int) -> list:
+        opening, _, depth, _, closing = PLACEMENTS[self.placement]
+        ind = "    " * depth
+        params = self.h.sig.render_params(annotations=dict(self.h.anns), defaults=dict(self.h.defaults))
+        fname = self.first_spec()[1]
+        if fname:
+            fann = self.first_annotation(i)
+            params = fname + (f": {fann}" if fann else "") + (", " + params if params else "")
+        ret = f" -> {self.h.ret}" if self.h.ret is not None else ""
+        lines = [ln.format(i=i) for ln in opening]
+        if self.kind != "plain":
+            lines.append(f"{ind}@{self.kind}method")
+        lines.append(f"{ind}def m({params}){ret}:")
+        lines.append(f"{ind}    ({''.join(n + ', ' for n in self.names())})")
+        if closing:
+            lines.append(closing)
+        return lines
+
+    def call_lines(self, i: int) -> list:
+        """-> [(form label, first-argument label or None, source, Call)]; none for a function-local class (it has no
+        name outside its function)."""
+        path = self.path(i)
+        if path is None:
+            return []
+
+        def with_first(target: str, c: Call, first: Optional[str]) -> str:
+            s = c.render("F")[2:-1]
+            if first is not None:
+                s = first + (", " + s if s else "")
+            return f"{target}({s})"
+
+        out = []
+        for n, c in enumerate(self.h.calls[:3]):
+            out.append(("bound-to-instance", None, with_first(f"{path}().m", c, None), c))
+            if self.kind == "plain":
+                for lab, tmpl in (UNBOUND_FIRST if n == 0 else UNBOUND_FIRST[:1]):
+                    out.append(("unbound", lab, with_first(f"{path}.m", c, tmpl.format(path=path)), c))
+            else:
+                out.append(("through-class", None, with_first(f"{path}.m", c, None), c))
+        return out
+
+    def text(self) -> str:
+        return " / ".join(s.strip() for s in self.def_lines(0))
+
+    def to_json(self):
+        return {"placement": self.placement, "mkind": self.kind, "first": self.first, "h": self.h.to_json()}
+
+    @staticmethod
+    def from_json(j) -> "MethodCase":
+        return MethodCase(j["placement"], j["mkind"], j["first"], Header.from_json(j["h"]))
+
+
+def gen_methods(ctx):
+    """Every (placement, method kind, first-parameter variant) with several headers for the remaining parameters:
+    v0 no further parameter, v1 unannotated parameters, v2 all `int`, v3.. drawn from the pools of part 2."""
+    rng = gen_rng(ctx, "methods")
+    sigs = [s for s in enumerate_sigs(3) if s.params]
+    for placement, (_, path, _, _, _) in PLACEMENTS.items():
+        for kind, firsts in FIRSTS.items():
+            for label, _, tmpl in firsts:
+                if path is None and tmpl is not None and "{path}" in tmpl:
+                    continue  # a function-local class cannot be named in an annotation string
+                for v in range(ctx.pick(4, 12)):
+                    sig = Sig(()) if v == 0 else rng.choice(sigs)
+                    anns, defaults = [], []
+                    for p in sig.params:
+                        if v == 1:
+                            a = None
+                        elif v == 2:
+                            a = "int"
+                        else:
+                            a = rng.choice(M_ANN_VA if p.kind == VA else M_ANN_VK if p.kind == VK else ANN_POS)
+                        if a is not None:
+                            anns.append((p.name, a))
+                        if p.default:
+                            defaults.append((p.name, "0" if v < 3 else rng.choice(DEFAULTS)))
+                    ret = None if v < 2 else "int" if v == 2 else rng.choice(RETS)
+                    yield MethodCase(placement, kind, label, Header(sig, tuple(anns), tuple(defaults), ret, False, make_calls(sig, rng, 3)))
+
+
+def _find_def(node, name: str):
+    for child in getattr(node, "body", []):
+        if isinstance(child, (ast.FunctionDef, ast.AsyncFunctionDef)) and child.name == name:
+            return child
+        if isinstance(child, ast.ClassDef):
+            found = _find_def(child, name)
+            if found is not None:
+                return found
+    return None
+
+
+def _runtime_class(mod, mc: MethodCase, i: int):
+    path = mc.path(i)
+    if path is None:
+        return getattr(mod, f"mk{i}")()
+    obj = mod
+    for part in path.split("."):
+        obj = getattr(obj, part)
+    return obj
+
+
+def eval_methods(cases: list) -> list:
+    """One checked module M holding every class (def route: the values of the parameter names read in the method
+    body, plus the value left on the def node), its never-checked twin D (runtime route: get_signature of what
+    attribute access on the class / an instance yields) and an importing module U with the same calls as M."""
+    from pyanalyze.analysis_lib import make_module
+
+    prelude()
+    chk = checker()
+    m_lines, d_lines, u_lines = [HEADER], [HEADER], [HEADER]
+    call_specs = []
+    for i, mc in enumerate(cases):
+        m_lines += mc.def_lines(i)
+        d_lines += mc.def_lines(i)
+    for i, mc in enumerate(cases):
+        specs = mc.call_lines(i)
+        call_specs.append(specs)
+        for lines, fn in ((m_lines, "calls"), (u_lines, "caller")):
+            lines.append(f"def {fn}{i}():")
+            lines += ["    " + s for _, _, s, _ in specs] or ["    pass"]
+    dmod = make_module("\n".join(d_lines) + "\n")
+    mods = [dmod]
+    try:
+        m_src = "\n".join(m_lines) + "\n"
+        m_tree = ast.parse(m_src)
+        m_res = harness.run(m_src, tree=m_tree, annotate=True, keep_module=True)
+        mods.append(m_res.module)
+        u_src = "\n".join(u_lines) + "\n"
+        u_tree = ast.parse(u_src)
+        scope = {k: v for k, v in dmod.__dict__.items() if re.fullmatch(r"[KO]\d+", k)}
+        u_res = harness.run(u_src, tree=u_tree, annotate=True, keep_module=True, extra_scope=scope)
+        mods.append(u_res.module)
+        for r, name in ((m_res, "defining"), (u_res, "importing")):
+            if r.exception is not None:
+                raise BatchCrash(name, r.exception)
+        m_by, u_by = m_res.by_line(), u_res.by_line()
+        m_top = {n.name: n for n in m_tree.body if isinstance(n, (ast.FunctionDef, ast.ClassDef))}
+        u_top = {n.name: n for n in u_tree.body if isinstance(n, ast.FunctionDef)}
+
+        def sig_of(getter):
+            try:
+                return chk.get_signature(getter())
+            except Exception as ex:  # noqa: BLE001
+                return Exc(type(ex).__name__, re.sub(r" at 0x[0-9a-f]+", "", str(ex)))
+
+        out = []
+        for i, mc in enumerate(cases):
+            top = m_top[mc.def_lines(i)[0].split()[1].split("(")[0].rstrip(":")]
+            fd = _find_def(top, "m")
+            err = internal_error_of([d for ln in range(top.lineno, fd.body[-1].lineno + 1) for d in m_by.get(ln, [])])
+            def_vals = {}
+            for elt in fd.body[-1].value.elts:
+                def_vals[elt.id] = err if err is not None else getattr(elt, "inferred_value", None)
+            r = {"def_vals": def_vals, "node": err if err is not None else getattr(fd, "inferred_value", None)}
+            for tag, mod in (("m", m_res.module), ("d", dmod)):
+                r["class_" + tag] = sig_of(lambda mod=mod: getattr(_runtime_class(mod, mc, i), "m"))
+                r["inst_" + tag] = sig_of(lambda mod=mod: getattr(_runtime_class(mod, mc, i)(), "m"))
+            calls = []
+            for j, (form, first, src, call) in enumerate(call_specs[i]):
+                ms, us = m_top[f"calls{i}"].body[j], u_top[f"caller{i}"].body[j]
+                # read in the defining module: the same class objects as the values of the def route
+                first_val = getattr(ms.value.args[0], "inferred_value", None) if first is not None else None
+                calls.append((form, first, src, call_diag_set(m_by.get(ms.lineno, [])), call_diag_set(u_by.get(us.lineno, [])), first_val, call))
+            r["calls"] = calls
+            out.append(r)
+        return out
+    finally:
+        for m in mods:
+            harness.forget_module(m)
+
+
+def _vclass(v) -> str:
+    if isinstance(v, Exc):
+        return "raised:" + v.typ
+    if v is None:
+        return "no-value"
+    from pyanalyze.value import AnyValue
+
+    if isinstance(v, AnyValue):
+        return f"Any[{v.source.name}]"
+    return type(v).__name__
+
+
+def _same_class_other_args(x, y) -> bool:
+    from pyanalyze.value import TypedValue
+
+    return isinstance(x, TypedValue) and isinstance(y, TypedValue) and _resolve_typ(x.typ) is _resolve_typ(y.typ)
+
+
+def compare_method(mc: MethodCase, r: dict) -> tuple:
+    """-> ([(key, what)], number of parameters compared, first parameter compared?)"""
+    from pyanalyze.signature import BoundMethodSignature, Signature
+    from pyanalyze.value import CallableValue
+
+    pc = placement_class(mc.placement)
+    names = mc.names()
+    fname = mc.first_spec()[1]
+    anns = dict(mc.h.anns)
+    out: list = []
+    sig = r["class_m"]
+    if isinstance(sig, BoundMethodSignature):
+        try:
+            sig = sig.get_signature(ctx=checker())
+        except Exception as ex:  # noqa: BLE001
+            sig = Exc(type(ex).__name__, str(ex))
+    if not isinstance(sig, Signature):
+        return [(f"method|{mc.kind}|{pc}|runtime-route|{_vclass(sig)}",
+                 f"get_signature of the method reached through its class gives {show(sig)}")], 0, False
+    # what attribute access on the class hides: the class method's cls
+    expected = names[1:] if mc.kind == "class" else names
+    got = list(sig.parameters)
+    if got != expected:
+        return [(f"method|{mc.kind}|{pc}|names", f"the def statement declares {expected}, the runtime signature has {got}")], 0, False
+    kinds = mc.declared_kinds()
+    has_default = {p.name: p.default for p in mc.h.sig.params}
+    compared = 0
+    first_compared = False
+    for n in expected:
+        p = sig.parameters[n]
+        if p.kind.name != kinds[n]:
+            out.append((f"method|{mc.kind}|param-kind|declared={kinds[n]}|runtime={p.kind.name}",
+                        f"parameter {n}: declared {kinds[n]}, runtime signature says {p.kind.name}"))
+            continue
+        if (p.default is not None) != bool(has_default.get(n, False)):
+            out.append((f"method|{mc.kind}|has-default|declared={bool(has_default.get(n))}|runtime={p.default is not None}",
+                        f"parameter {n}: default present={p.default is not None} in the runtime signature"))
+            continue
+        if kinds[n] in ("VAR_POSITIONAL", "VAR_KEYWORD"):
+            continue  # the body sees the packed tuple/dict; the element type is compared on plain functions (part 2)
+        dv = r["def_vals"].get(n)
+        compared += 1
+        if n == fname:
+            first_compared = True
+            declared = mc.first_annotation(0)
+            # the type of an implicit first parameter is derived from the enclosing class by both routes: it is
+            # part of the declaration, so it must be the same type, not merely compatible
+            if not agree(dv, p.annotation):
+                where = "generic-class" if _same_class_other_args(dv, p.annotation) else pc
+                out.append((f"method|{mc.kind}|{where}|first-param|{mc.first.replace('-odd-name', '')}|def={_vclass(dv)}|runtime={_vclass(p.annotation)}",
+                            f"first parameter {n} ({'unannotated' if declared is None else declared}): {show(dv)} inside the "
+                            f"method body (def route), {show(p.annotation)} in the runtime signature"))
+            continue
+        declared = anns.get(n)
+        if mc.kind == "class" and mc.first == "type-typevar" and declared is not None and re.search(r"\bT\b", declared):
+            compared -= 1
+            continue  # reaching the method through its class binds cls and thereby T: not the declared annotation any more
+        if isinstance(dv, Exc) or dv is None:
+            ok = False
+        elif declared is None:
+            ok = mutually_assignable(dv, p.annotation)
+        else:
+            ok = agree(dv, p.annotation)
+        if not ok:
+            out.append((f"method|{mc.kind}|annotation|{ann_label(declared)}",
+                        f"parameter {n}: {declared!r} is {show(dv)} in the method body, {show(p.annotation)} in the runtime signature"))
+    # a function-local class: the def node itself carries the signature computed from the def statement
+    if isinstance(r["node"], CallableValue) and isinstance(r["node"].signature, Signature) and mc.kind == "plain":
+        full = Header(Sig((Param(fname, PO if kinds[fname] == "POSITIONAL_ONLY" else PK),) + mc.h.sig.params),
+                      mc.h.anns, mc.h.defaults, mc.h.ret, False, ())
+        for key, what in compare_signatures(full, r["node"], sig):
+            out.append(("method|" + pc + "|" + key, what))
+    # the never-checked twin module and the instance-bound view tell the same story
+    for tag, other in (("never-checked-module", r["class_d"]), ("bound-to-instance", r["inst_m"]), ("bound-to-instance", r["inst_d"])):
+        if isinstance(other, BoundMethodSignature):
+            try:
+                other = other.get_signature(ctx=checker())
+            except Exception as ex:  # noqa: BLE001
+                other = Exc(type(ex).__name__, str(ex))
+        if other is None and tag == "bound-to-instance" and mc.first == "other-class" and not PLACEMENTS[mc.placement][0][-1].endswith("(A):"):
+            continue  # an instance of K is not an A: there is no bound method to describe
+        if not isinstance(other, Signature):
+            out.append((f"method|{mc.kind}|{pc}|{tag}|{_vclass(other)}", f"{tag}: get_signature gives {show(other)}"))
+            continue
+        want = expected[1:] if tag == "bound-to-instance" and mc.kind == "plain" else expected
+        if list(other.parameters) != want:
+            out.append((f"method|{mc.kind}|{pc}|{tag}|names", f"{tag}: parameters {list(other.parameters)}, expected {want}"))
+            continue
+        for n in want:
+            a, b = other.parameters[n], sig.parameters[n]
+            # binding an instance substitutes type variables: only the twin module's annotations are comparable
+            if a.kind is not b.kind or (tag == "never-checked-module" and stable_str(a.annotation) != stable_str(b.annotation)):
+                out.append((f"method|{mc.kind}|{pc}|{tag}|parameter|{'first' if n == fname else 'other'}",
+                            f"{tag}: parameter {n} is {a.kind.name} {show(a.annotation)}, through the class of the "
+                            f"checked module it is {b.kind.name} {show(b.annotation)}"))
+                break
+    return out, compared, first_compared
+
+
+def judge_method(ctx, mc: MethodCase, r: dict, reduce: bool = True) -> None:
+    from pyanalyze.value import CanAssignError
+
+    ctx.count("evaluations")
+    ctx.count("method_cases")
+    text = mc.text()
+    ctx.nontrivial(("method", text, tuple(s for _, _, s, _ in mc.call_lines(0))))
+    ctx.histo("method_shapes", f"{mc.placement}|{mc.kind}|{mc.first}")
+    diffs, compared, first_compared = compare_method(mc, r)
+    ctx.count("method_params_compared", compared)
+    if first_compared:
+        ctx.count("method_first_param_compared")
+        ctx.histo("method_first_param_value_on_def_route", f"{placement_class(mc.placement)}|{mc.kind}|{mc.first}|"
+                  f"{_vclass(r['def_vals'].get(mc.first_spec()[1]))}")
+    seen = set()
+    for key, what in diffs:
+        if key in seen:
+            continue
+        seen.add(key)
+        small = mc
+        if reduce and mc.h.sig.params and ctx.violation_counts.get(key, 0) < 3:
+            trial = MethodCase(mc.placement, mc.kind, mc.first, Header(Sig(()), (), (), None, False, ()))
+            try:
+                tdiffs = dict(compare_method(trial, eval_methods([trial])[0])[0])
+            except Exception:  # noqa: BLE001
+                tdiffs = {}
+            if key in tdiffs:
+                small, what = trial, tdiffs[key]
+        ctx.violation(key, f"{small.text()}: {what}",
+                      {"kind": "method", "m": MethodCase(small.placement, small.kind, small.first,
+                                                         Header(small.h.sig, small.h.anns, small.h.defaults, small.h.ret, False, ())).to_json()})
+    if not diffs:
+        ctx.count("method_signatures_agree")
+    fname = mc.first_spec()[1]
+    for form, first, src, ms, us, first_val, call in r["calls"]:
+        ctx.count("method_calls_compared")
+        ctx.histo("method_call_forms", form if first is None else f"{form}|{first}")
+        one = Header(mc.h.sig, mc.h.anns, mc.h.defaults, mc.h.ret, False, (call,))
+        wit = {"kind": "method", "m": MethodCase(mc.placement, mc.kind, mc.first, one).to_json(), "call": src}
+        if ms != us:
+            if diffs:
+                ctx.count("call_differences_explained_by_signature_difference")
+                continue
+            key = f"method-call|{mc.kind}|{form}|defining={diag_class(ms - us)}|importing={diag_class(us - ms)}"
+            ctx.violation(key, f"{text}; call {src}: the defining module reports {sorted(ms)}, the importing module {sorted(us)}", wit)
+            continue
+        if first is None or fname is None:
+            continue
+        # an unbound call: the first argument is judged against the type the def route gives the first parameter
+        dv = r["def_vals"].get(fname)
+        if dv is None or isinstance(dv, Exc) or first_val is None:
+            continue
+        try:
+            accepts = not isinstance(dv.can_assign(first_val, checker()), CanAssignError)
+        except Exception:  # noqa: BLE001
+            continue
+        if any(code == "incompatible_call" for code, _ in us):
+            continue  # the arguments do not bind: their types are never looked at
+        reported = any(code == "incompatible_argument" and desc.startswith(f"Incompatible argument type for {fname}:") for code, desc in us)
+        ctx.count("method_unbound_first_arg_judged")
+        ctx.histo("method_unbound_first_arg", f"{first}|def-route-{'accepts' if accepts else 'rejects'}|{'reported' if reported else 'not-reported'}")
+        if reported and not accepts:
+            ctx.count("method_unbound_first_arg_rejected_and_reported")
+        if accepts == reported:
+            key = (f"method-call|unbound|{placement_class(mc.placement)}|first-arg|{first}|def-route-"
+                   f"{'accepts' if accepts else 'rejects'}|{'reported' if reported else 'not-reported'}")
+            ctx.violation(key, f"{text}; call {src}: inside the method {fname} is {show(dv)}, the argument is {show(first_val)}, "
+                               f"the call is {'reported' if reported else 'not reported'}: {sorted(us)}", wit)
+
+
+def check_method_batch(ctx, cases: list, depth_guard: int = 0) -> None:
+    try:
+        results = eval_methods(cases)
+    except BatchCrash as bc:
+        if len(cases) <= 1 or depth_guard > 12:
+            ctx.violation(f"crash|method|{bc.route}|{type(bc.exc).__name__}", f"checking the module raised {bc.exc!r}",
+                          {"kind": "method", "m": cases[0].to_json()})
+            return
+        mid = len(cases) // 2
+        check_method_batch(ctx, cases[:mid], depth_guard + 1)
+        check_method_batch(ctx, cases[mid:], depth_guard + 1)
+        return
+    for mc, r in zip(cases, results):
+        judge_method(ctx, mc, r)
+
+
+# ---------------------------------------------------------------------------
+# part 3: a quoted name inside an annotation belongs to the module that wrote it, whatever happened before
+#
+# typing keeps ONE alias object per spelling (List["A"] is List["A"], with one ForwardRef('A') inside) for the whole
+# process, and typing.get_type_hints() stores what it resolved on that shared object.  Two modules that define
+# different classes under the same names therefore share the very objects their annotations are made of.  Whatever the
+# other module (or code inspecting it) did before, every route must resolve the module's own class: the same value
+# as the annotation written without quotes.
+
+OWN_CLASSES = "class A: pass\nclass B(A): pass\nclass Warning: pass\nclass TimeoutError(Exception): pass\n"
+OWN_NAMES = ("A", "B", "Warning", "TimeoutError")
+HISTORIES = ("none", "other-module-get_type_hints", "other-module-get_type_hints-include_extras")
+TWIN_ROUTES = ("A", "Bv", "Bs", "Cr", "Cs", "Cf", "R")
+TWIN_BATCH = 24  # typing's caches hold 128 entries: the two modules of a batch must meet each other's objects
+FWD_ATOMS = [a for a in ATOMS if a.form.startswith("fwdref")]
+CON_BY_FORM = {c[0]: c for c in CONSTRUCTORS}
+
+
+def dequote(e: E) -> E:
+    """The same expression with every forward-reference string replaced by what it says."""
+    if not e.kids:
+        if e.form.startswith("fwdref"):
+            return E(ast.literal_eval(e.src), "class", (), 0)
+        return e
+    return build(CON_BY_FORM[e.form], [dequote(k) for k in e.kids])
+
+
+def has_fwdref(e: E) -> bool:
+    return e.form.startswith("fwdref") if not e.kids else any(has_fwdref(k) for k in e.kids)
+
+
+def holder_spelling(e: E) -> str:
+    """Spelling class of the innermost constructor that holds a quoted name (for the mechanism key)."""
+    for k in e.kids:
+        if k.kids and has_fwdref(k):
+            return holder_spelling(k)
+    if not e.kids:
+        return "bare-string"
+    tmpl = CON_BY_FORM[e.form][2]
+    if "|" in tmpl:
+        return "bitor"
+    head = tmpl.split("[")[0]
+    if head.startswith("collections.abc."):
+        return "abc-generic"
+    if head.startswith("contextlib."):
+        return "contextlib-generic"
+    if head in ("G", "PG"):
+        return "user-generic"
+    if head.startswith("typing.") or head[0].isupper():
+        return "typing-form"
+    return "builtin-generic"
+
+
+def gen_twin(ctx):
+    """(expression with >= 1 quoted name, history). Depth 1: every constructor x every slot x every forward-reference
+    atom; depth 2: every constructor around every typing/builtin container of a quoted name; history round-robin."""
+    seen = set()
+    n = 0
+
+    def emit(e):
+        nonlocal n
+        if e.src in seen or context_of(e) != "param":
+            return None
+        seen.add(e.src)
+        n += 1
+        return (e, HISTORIES[n % len(HISTORIES)])
+
+    for a in FWD_ATOMS:
+        r = emit(a)
+        if r:
+            yield r
+    for con in INNER_CONSTRUCTORS:
+        for slot in range(con[1]):
+            for a in (FWD_ATOMS if slot == 0 or not ctx.quick else FWD_ATOMS[::3]):
+                kids = [INT, STR, INT][: con[1]]
+                kids[slot] = a
+                r = emit(build(con, kids))
+                if r:
+                    yield r
+    inner_pool = [c for c in INNER_CONSTRUCTORS if c[0] in ("List", "list", "Optional", "Union", "Dict", "Tuple.variadic", "Type",
+                                                            "Callable.list1", "Sequence", "abc.Sequence", "Annotated", "user-generic")]
+    rng = gen_rng(ctx, "twin")
+    for outer in INNER_CONSTRUCTORS:
+        for inner in (inner_pool if not ctx.quick else rng.sample(inner_pool, 3)):
+            a = rng.choice(FWD_ATOMS)
+            ikids = [INT, STR, INT][: inner[1]]
+            ikids[rng.randrange(inner[1])] = a
+            okids = [STR, INT, STR][: outer[1]]
+            okids[rng.randrange(outer[1])] = build(inner, ikids)
+            r = emit(build(outer, okids))
+            if r:
+                yield r
+
+
+def _forward_refs(obj, out: list, depth: int = 0) -> list:
+    import typing
+
+    if depth > 8:
+        return out
+    if isinstance(obj, typing.ForwardRef):
+        out.append(obj)
+    elif isinstance(obj, (list, tuple)):
+        for a in obj:
+            _forward_refs(a, out, depth + 1)
+    else:
+        for a in getattr(obj, "__args__", None) or ():
+            _forward_refs(a, out, depth + 1)
+        if hasattr(obj, "__metadata__"):
+            _forward_refs(getattr(obj, "__origin__", None), out, depth + 1)
+    return out
+
+
+def eval_twin(exprs: list, history: str) -> list:
+    """-> per expression (outcome dict over TWIN_ROUTES, state of the typing objects when pyanalyze looked)."""
+    import typing
+
+    from pyanalyze.analysis_lib import make_module
+    from pyanalyze.annotations import type_from_runtime
+
+    prelude()
+    chk = checker()
+    deq = [dequote(e) for e in exprs]
+    o_lines = [HEADER + "ROLE = 'the other module'\n" + OWN_CLASSES]
+    t_lines = [HEADER + "ROLE = 'the module under test'\n" + OWN_CLASSES]
+    f_lines = [FUTURE + HEADER + "".join(f"{n} = _T.{n}\n" for n in OWN_NAMES)]
+    for i, e in enumerate(exprs):
+        o_lines += [f"def f{i}(x: {e.src}):", "    x"]
+        t_lines += [f"def f{i}(x: {e.src}):", "    x", f"def q{i}(x: {e.src!r}):", "    x", f"def r{i}(x: {deq[i].src}):", "    x"]
+        f_lines += [f"def f{i}(x: {e.src}):", "    x"]
+    mods = []
+    try:
+        omod = make_module("\n".join(o_lines) + "\n")
+        mods.append(omod)
+        t_src = "\n".join(t_lines) + "\n"
+        tmod = make_module(t_src)
+        mods.append(tmod)
+        fmod = make_module("\n".join(f_lines) + "\n", {"_T": tmod})
+        mods.append(fmod)
+        # --- history: code that inspects the OTHER module
+        if history != "none":
+            for i in range(len(exprs)):
+                try:
+                    typing.get_type_hints(getattr(omod, f"f{i}"), include_extras=history.endswith("include_extras"))
+                except Exception:  # noqa: BLE001
+                    pass
+        states = []
+        for i in range(len(exprs)):
+            mine = _forward_refs(getattr(tmod, f"f{i}").__annotations__["x"], [])
+            theirs = {id(r) for r in _forward_refs(getattr(omod, f"f{i}").__annotations__["x"], [])}
+            shared = [r for r in mine if id(r) in theirs]
+            # nothing in this process ever evaluates typing objects in the namespace of the module under test
+            foreign = [r for r in shared if r.__forward_evaluated__]
+            states.append("no-typing-ForwardRef" if not mine else "not-shared" if not shared else
+                          "shared+evaluated-elsewhere" if foreign else "shared+unevaluated")
+        # --- the module under test
+        t_tree = ast.parse(t_src)
+        res = harness.run(t_src, tree=t_tree, annotate=True, module=tmod)
+        if res.exception is not None:
+            raise BatchCrash("A", res.exception)
+        by_line = res.by_line()
+        vis: dict = {}
+        for node in t_tree.body:
+            if isinstance(node, ast.FunctionDef) and node.name[0] in "fq" and node.name[1:].isdigit():
+                ret = node.body[-1]
+                v = internal_error_of([d for ln in range(node.lineno, ret.lineno + 1) for d in by_line.get(ln, [])])
+                vis[node.name] = v if v is not None else getattr(ret.value, "inferred_value", None)
+        ns = tmod.__dict__
+
+        def guarded(fn):
+            try:
+                return fn()
+            except Exception as ex:  # noqa: BLE001
+                return Exc(type(ex).__name__, re.sub(r" at 0x[0-9a-f]+", "", str(ex)))
+
+        def sig_ann(mod, name):
+            sig = chk.get_signature(getattr(mod, name))
+            return sig.parameters["x"].annotation if sig is not None else None
+
+        out = []
+        for i, e in enumerate(exprs):
+            o = {
+                "A": vis.get(f"f{i}"), "Bv": vis.get(f"q{i}"),
+                "Bs": guarded(lambda: type_from_runtime(e.src, globals=ns)),
+                "Cr": guarded(lambda: type_from_runtime(getattr(tmod, f"f{i}").__annotations__["x"], globals=ns)),
+                "Cs": guarded(lambda: sig_ann(tmod, f"f{i}")),
+                "Cf": guarded(lambda: sig_ann(fmod, f"f{i}")),
+                "R": guarded(lambda: type_from_runtime(getattr(tmod, f"r{i}").__annotations__["x"], globals=ns)),
+            }
+            out.append((o, states[i], {r: _twin_show(v, tmod, omod) for r, v in o.items()}))
+        return out
+    finally:
+        for m in mods:
+            harness.forget_module(m)
+
+
+def _twin_show(v, tmod, omod) -> str:
+    if v is None or isinstance(v, Exc):
+        return show(v)
+    try:
+        populate(v)
+        text = str(v).replace(tmod.__name__, "<module under test>").replace(omod.__name__, "<THE OTHER MODULE>")
+        return f"{harness.normalise_text(text)} ({type(v).__name__})"
+    except Exception as e:  # noqa: BLE001
+        return f"<str() raised {type(e).__name__}>"
+
+
+def check_twin_batch(ctx, exprs: list, history: str, depth_guard: int = 0) -> None:
+    try:
+        results = eval_twin(exprs, history)
+    except BatchCrash as bc:
+        if len(exprs) <= 1 or depth_guard > 8:
+            ctx.violation(f"crash|twin|{bc.route}|{type(bc.exc).__name__}", f"checking the module raised {bc.exc!r}",
+                          {"kind": "twin", "e": exprs[0].to_json(), "history": history})
+            return
+        mid = len(exprs) // 2
+        check_twin_batch(ctx, exprs[:mid], history, depth_guard + 1)
+        check_twin_batch(ctx, exprs[mid:], history, depth_guard + 1)
+        return
+    hist = "no-history" if history == "none" else "after-get_type_hints-on-the-other-module"
+    for e, (o, state, rendered) in zip(exprs, results):
+        ctx.count("evaluations")
+        ctx.count("twin_cases")
+        ctx.nontrivial(("twin", e.src, history))
+        ctx.histo("twin_history", history)
+        ctx.histo("twin_typing_object_state", f"{history}|{state}")
+        ctx.histo("twin_holder_spelling", holder_spelling(e))
+        if state == "shared+evaluated-elsewhere":
+            ctx.count("twin_cases_shared_object_evaluated_elsewhere")
+        n = len(o)
+        ctx.count("route_pairs_compared", n * (n - 1) // 2)
+        if not disagrees(o):
+            ctx.count("twin_all_routes_agree_with_unquoted")
+            continue
+        key = f"twin|{hist}|quoted-name-in-{holder_spelling(e)}|{partition_text(o)}"
+        ctx.violation(key, f"two modules define their own A/B/Warning/TimeoutError; history: {history}; typing objects: {state}; "
+                           f"in the module under test {e.src!r} (R = {dequote(e).src!r} without quotes): "
+                           + "; ".join(f"{r}={t}" for r, t in rendered.items()),
+                      {"kind": "twin", "e": e.to_json(), "history": history})
+
+
+def run_twin(ctx, cases: list) -> None:
+    """Batches per history, the untouched-history batches first (typing's shared objects keep what was stored on them)."""
+    for history in HISTORIES:
+        es = [e for e, h in cases if h == history]
+        for i in range(0, len(es), TWIN_BATCH):
+            chunk = [e for e in es[i:i + TWIN_BATCH] if runtime_valid(e) and runtime_valid(dequote(e))]
+            ctx.count("twin_runtime_invalid", len(es[i:i + TWIN_BATCH]) - len(chunk))
+            if chunk:
+                check_twin_batch(ctx, chunk, history)
 
 
 # ---------------------------------------------------------------------------
@@ -1426,6 +2236,23 @@ def shard(ctx) -> None:
             hs.append(h)
     for i in range(0, len(hs), 60):
         check_header_batch(ctx, hs[i:i + 60])
+    # part 2b
+    ms = []
+    idx = 0
+    for mc in gen_methods(ctx):
+        idx += 1
+        if ctx.mine(idx):
+            ms.append(mc)
+    for i in range(0, len(ms), 40):
+        check_method_batch(ctx, ms[i:i + 40])
+    # part 3
+    tw = []
+    idx = 0
+    for case in gen_twin(ctx):
+        idx += 1
+        if ctx.mine(idx):
+            tw.append(case)
+    run_twin(ctx, tw)
 
 
 def replay(witness):
@@ -1443,6 +2270,10 @@ def replay(witness):
         check_ann_batch(ctx, [], [TDCase.from_json(witness["td"])])
     elif kind == "header":
         check_header_batch(ctx, [Header.from_json(witness["h"])])
+    elif kind == "method":
+        check_method_batch(ctx, [MethodCase.from_json(witness["m"])])
+    elif kind == "twin":
+        run_twin(ctx, [(E.from_json(witness["e"]), witness["history"])])
     for key, lst in ctx.violations.items():
         return key, lst[0]["what"]
     return None
